@@ -163,6 +163,7 @@ func (m *Manager) Put(key, value []byte) error {
 		}
 		seqNum, err := currentWAL.Append(wal.OpTypePut, key, value)
 		if err != nil {
+			err = m.rotatedOut(currentWAL, err)
 			if err != wal.ErrWALRotating {
 				m.stats.TrackError("wal_append_error")
 				return fmt.Errorf("failed to append to WAL: %w", err)
@@ -260,6 +261,7 @@ func (m *Manager) Delete(key []byte) error {
 		}
 		seqNum, err := currentWAL.Append(wal.OpTypeDelete, key, nil)
 		if err != nil {
+			err = m.rotatedOut(currentWAL, err)
 			if err != wal.ErrWALRotating {
 				m.stats.TrackError("wal_append_error")
 				return fmt.Errorf("failed to append to WAL: %w", err)
@@ -378,6 +380,7 @@ func (m *Manager) ApplyBatch(entries []*wal.Entry) error {
 		}
 		startSeqNum, err := currentWAL.AppendBatch(entries)
 		if err != nil {
+			err = m.rotatedOut(currentWAL, err)
 			if err != wal.ErrWALRotating {
 				m.stats.TrackError("wal_append_batch_error")
 				return fmt.Errorf("failed to append batch to WAL: %w", err)
@@ -589,6 +592,17 @@ func (m *Manager) rotateWAL() error {
 	}
 
 	return nil
+}
+
+// rotatedOut turns the error of an append that hit a WAL which a concurrent
+// rotation has already replaced and closed into ErrWALRotating, so that the
+// write is retried on the current WAL instead of failing with "WAL is closed"
+// although nothing is wrong.
+func (m *Manager) rotatedOut(used *wal.WAL, err error) error {
+	if err == wal.ErrWALClosed && !m.closed.Load() && used != m.getWAL() {
+		return wal.ErrWALRotating
+	}
+	return err
 }
 
 // isRotating returns true if WAL rotation is currently in progress
